@@ -18,7 +18,7 @@ pub fn prop() -> Prop {
          string read back at the same position is identical. Non-trivial: the string contains a quote, backslash, \
          control character or line terminator; distinct by (string, cfg).",
     )
-    .random("strings", check, |t| if t == Tier::Quick { 800_000 } else { 10_000_000 }, |t| if t == Tier::Quick { 160 } else { 400 })
+    .random("strings", check, |t| if t == Tier::Quick { 2_000_000 } else { 10_000_000 }, |t| if t == Tier::Quick { 160 } else { 400 })
     .text(check_text_default)
 }
 
